@@ -1554,7 +1554,58 @@ def check_c17(ctx):
             rep.sample({"desc": key[0], "type": key[1], "value": node_to_native(vl["val"]), "chunks": vl["chunks"],
                         "little": hexs(bl), "big": hexs(bb)})
     rep.notes["value_pairs"] = len(pairs)
-    rep.notes["backends"] = ["rust"]
+    # ---- the same law for the Python and C++ serializers ("for each backend"): kit descriptions plus the builder's
+    # clean C++ batch (the unit list of C14, so that the sanitizer drivers are shared)
+    units2 = make_units(kit.build(ctx.tier) + builder_descs(ctx.tier, ctx.seed, 'cxxclean', n=96 if ctx.tier == 'quick' else 800))
+    compile_units(ctx.driver(), units2, ["analyze", "python", "cxx"])
+    jobs = []
+    for k, u in enumerate(units2):
+        jobs.append(dict(d=k + 1, type="", anc="", mode="info", n=0))
+        if u.status != "accepted":
+            continue
+        for t in u.types():
+            jobs.append(dict(d=k + 1, type=t, anc="", mode="enc", n=0))
+    vecs2, info2 = run_jobs(ctx, units2, jobs, rep, tag="dual2")
+    pyu = [u for u in units2 if u.status == "accepted" and (info2.get(u.name, {}).get("pyclean") if u.desc["name"].startswith("g_") else info2.get(u.name, {}).get("py"))]
+    pmods = prepare_python(ctx, pyu)
+    cbins = build_cxx(units2, info2, "asan")
+    encs2 = [v for v in vecs2 if v["k"] == "enc" and not v["faults"]]
+    rq = xser_requests(encs2, pmods, cbins, {})
+    ob = {"py": run_py(rq["py"], tag="dualp"), "cxx": run_cxx(cbins, rq["cxx"], tag="dualc")}
+    npairs = {"py": 0, "cxx": 0}
+    for b in ("py", "cxx"):
+        pairs2 = {}
+        for i, v in enumerate(encs2):
+            by = xser_bytes(b, ob[b].get(i))
+            if by is None:
+                continue        # a serializer that fails / has no builder for the type: C13 / C14's matter
+            key = (v["unit"].desc["name"], v["type"], json.dumps(v["val"], sort_keys=True))
+            pairs2.setdefault(key, {})[v["unit"].desc["endian"]] = (v, by)
+        for key, pr in pairs2.items():
+            if "little" not in pr or "big" not in pr:
+                continue
+            (vl, bl), (vb, bb) = pr["little"], pr["big"]
+            rep.validated()
+            if bl != vl["bytes"]:
+                # the little-endian encoding itself is not the reference encoding: C13 / C14 report that; the chunk
+                # map of the reference says nothing about another layout
+                rep.notes["pairs_skipped_wrong_little_encoding_" + b] = rep.notes.get("pairs_skipped_wrong_little_encoding_" + b, 0) + 1
+                continue
+            npairs[b] += 1
+            kind = None
+            if len(bl) != len(bb):
+                kind = "length_differs"
+            elif bb != dual(bl, vl["chunks"]):
+                kind = "not_chunkwise_reversal"
+            if kind:
+                rep.violation("C17|%s|%s|%s|%s" % (b, key[0], key[1], kind),
+                              {"backend": b, "desc": vl["unit"].desc, "pdl": vl["unit"].src, "type": key[1],
+                               "stimulus": {"value": node_to_native(vl["val"])},
+                               "expected": {"chunks": vl["chunks"], "big_from_little": hexs(dual(bl, vl["chunks"]))},
+                               "observed": {"little": hexs(bl), "big": hexs(bb)}})
+    rep.notes["value_pairs_python"] = npairs["py"]
+    rep.notes["value_pairs_cxx"] = npairs["cxx"]
+    rep.notes["backends"] = ["rust", "python", "cxx"]
     rep.assumptions += ["chunk map computed by TLC (spec/PdlCodec.tla `chunks`); DualityInv checked on the model for every vector"]
     return rep.finish()
 
@@ -2126,6 +2177,49 @@ def check_c19(ctx):
 
 
 # ------------------------------------------------------------------------------ C07 all backends agree
+def xser_requests(vs, pmods, cbins, jmods):
+    """serialize requests for the four harnesses, one per value vector (C07, C17)"""
+    rq = {"rust": [], "py": [], "cxx": [], "java": []}
+    for i, v in enumerate(vs):
+        u, t = v["unit"], v["type"]
+        val = node_to_native(v["val"])
+        rq["rust"].append(dict(rid=i, desc=u.name, type=t, op="encode", value=val, prefix=[]))
+        if u.name in pmods:
+            rq["py"].append(dict(rid=i, mod=pmods[u.name], type=t, op="serialize", value=val, root=v["root"]))
+        if u.name in cbins:
+            binp, us, schemas = cbins[u.name]
+            params = us.get(t, {}).get("build")
+            if params is not None:
+                try:
+                    if params == "struct":
+                        flat, field, one = cxxgen.flatten(val, schemas[t], schemas)
+                        one("struct", t, val)
+                    else:
+                        flat = cxxgen.flatten_args(val, params, schemas[t], schemas)
+                    rq["cxx"].append(dict(rid=i, bin=binp, line="%d B %s %s" % (i, t, " ".join(map(str, flat)))))
+                except KeyError:
+                    pass
+        if u.name in jmods:
+            rq["java"].append(dict(rid=i, line="%d B %s %s %s" % (i, jmods[u.name], t, " ".join(java_tokens(val)))))
+    return rq
+
+
+def xser_bytes(b, o):
+    """the octets a harness reports for a serialize request, or None"""
+    r = (o or {}).get("r", {})
+    if not isinstance(r, dict):
+        return None
+    if b == "rust":
+        x = r.get("vec")
+        return x.get("ok") if isinstance(x, dict) else None
+    if b == "py":
+        return (r.get("ok") or {}).get("bytes") if isinstance(r.get("ok"), dict) else None
+    if b == "cxx":
+        return list(bytes.fromhex(r["bytes"])) if "bytes" in r else None
+    if b == "java":
+        return list(bytes.fromhex(r["ok"]["bytes"])) if isinstance(r.get("ok"), dict) and "bytes" in r["ok"] else None
+
+
 def check_c07(ctx):
     """PdlChannel: every backend writes every boundary value; every backend reads what every other wrote;
     all parsers are fed every TLC stimulus string.  Results are compared pairwise and with the value written."""
@@ -2163,45 +2257,10 @@ def check_c07(ctx):
     decs = [v for v in vecs if v["k"] == "dec" and "Unsupported" not in v["faults"] + v["full"]]
 
     # ---- stage 1: every backend serializes every value
-    def ser_requests(vs):
-        rq = {"rust": [], "py": [], "cxx": [], "java": []}
-        for i, v in enumerate(vs):
-            u, t = v["unit"], v["type"]
-            val = node_to_native(v["val"])
-            rq["rust"].append(dict(rid=i, desc=u.name, type=t, op="encode", value=val, prefix=[]))
-            rq["py"].append(dict(rid=i, mod=pmods[u.name], type=t, op="serialize", value=val, root=v["root"]))
-            binp, us, schemas = cbins[u.name]
-            params = us.get(t, {}).get("build")
-            if params is not None:
-                try:
-                    if params == "struct":
-                        flat, field, one = cxxgen.flatten(val, schemas[t], schemas)
-                        one("struct", t, val)
-                    else:
-                        flat = cxxgen.flatten_args(val, params, schemas[t], schemas)
-                    rq["cxx"].append(dict(rid=i, bin=binp, line="%d B %s %s" % (i, t, " ".join(map(str, flat)))))
-                except KeyError:
-                    pass
-            rq["java"].append(dict(rid=i, line="%d B %s %s %s" % (i, jmods[u.name], t, " ".join(java_tokens(val)))))
-        return rq
-
-    rq = ser_requests(encs)
+    rq = xser_requests(encs, pmods, cbins, jmods)
     ob = {"rust": run_rust(rbins, rq["rust"], tag="c07r"), "py": run_py(rq["py"], tag="c07p"),
           "cxx": run_cxx(cbins, rq["cxx"], tag="c07c"), "java": run_java(jcls, rq["java"], tag="c07j")}
-
-    def ser_bytes(b, o):
-        r = (o or {}).get("r", {})
-        if not isinstance(r, dict):
-            return None
-        if b == "rust":
-            x = r.get("vec")
-            return x.get("ok") if isinstance(x, dict) else None
-        if b == "py":
-            return (r.get("ok") or {}).get("bytes") if isinstance(r.get("ok"), dict) else None
-        if b == "cxx":
-            return list(bytes.fromhex(r["bytes"])) if "bytes" in r else None
-        if b == "java":
-            return list(bytes.fromhex(r["ok"]["bytes"])) if isinstance(r.get("ok"), dict) and "bytes" in r["ok"] else None
+    ser_bytes = xser_bytes
 
     BACK = ["rust", "py", "cxx", "java"]
     written = []      # (vector, backend, bytes)
@@ -2814,6 +2873,11 @@ def check_c11(ctx):
     quick = ctx.tier == "quick"
     units = make_units(kit.build(ctx.tier) + builder_descs(ctx.tier, ctx.seed, "rust"))
     K = 3 if quick else 12
+    # the edge descriptions take part in the digest and exclusion parts (no harness is built for them)
+    nharness = len(units)
+    for d in kit.c10_descs(ctx.tier):
+        dd = json.loads(json.dumps(d))
+        units.append(Unit(len(units), dd))
     reqs = [dict(rid=u.idx, name=u.desc["name"] + ".pdl", src=u.src, want=["analyze", "json", "rust", "python", "cxx"], repeat=K)
             for u in units]
     res = run_driver(ctx.driver(), reqs, tag="c11a")
@@ -2927,6 +2991,7 @@ def check_c11(ctx):
                                "observed": {"with_exclude": json.dumps(ga)[:300], "source_without_decl": json.dumps(gb)[:300]}})
     rep.notes["exclusion_comparisons"] = nex
     # front ends: #[pdl_inline] modules must behave event-for-event like the CLI-generated modules
+    units = units[:nharness]
     fe = [u for u in units if u.status == "accepted" and "ok" in u.resp.get("rust", {})]
     jobs = [dict(d=k + 1, type="", anc="", mode="info", n=0) for k, u in enumerate(units)]
     _, info = run_jobs(ctx, units, jobs, rep, tag="c11info")
